@@ -23,17 +23,19 @@ Print Assumptions C07_section_roundtrip.
 (* the hypotheses are satisfiable: a packet using fields of every kind, and the packets that were
    refutation witnesses before the repairs (height locktime alone and with a time locktime, peg-in
    value, a two-entry pre-image map in either listing order, proprietary entries of a foreign, the
-   pset and the empty identifier, 253 inputs) are well formed and round-trip *)
+   pset and the empty identifier, 253 inputs, a derivation with an empty path, a 44-byte witness UTXO)
+   are well formed and round-trip *)
 Theorem C07_wf_nonvacuous : wf_pset o_true o_true o_true o_id ex_pset = true.
 Proof. exact ex_pset_wf. Qed.
 Print Assumptions C07_wf_nonvacuous.
 Theorem C07_repaired_witnesses_roundtrip :
   rt_check ex_height = true /\ rt_check ex_both = true /\ rt_check ex_pegin = true /\
   rt_check ex_map12 = true /\ rt_check ex_map21 = true /\ rt_check ex_foreign = true /\
-  count_check ex_stream_253 = true /\ foreign_kept_check = true.
+  count_check ex_stream_253 = true /\ foreign_kept_check = true /\
+  rt_check ex_empty_path = true /\ rt_check ex_short_utxo = true.
 Proof.
   exact (conj ex_height_rt (conj ex_both_rt (conj ex_pegin_rt (conj ex_map12_rt (conj ex_map21_rt
-        (conj ex_foreign_rt (conj ex_count_253 ex_foreign_kept))))))).
+        (conj ex_foreign_rt (conj ex_count_253 (conj ex_foreign_kept (conj ex_empty_path_rt ex_short_utxo_rt))))))))). 
 Qed.
 Print Assumptions C07_repaired_witnesses_roundtrip.
 
@@ -55,22 +57,12 @@ Theorem C07_kinds_preserved : forall pk der xo canon p, wf_pset pk der xo canon 
 Proof. exact kinds_preserved. Qed.
 Print Assumptions C07_kinds_preserved.
 
-(* what remains outside the round-trip domain although the library builds or accepts it *)
-Theorem C07_empty_bip32_path_refuted :
-  exists p bs, ser_pset p = ROk bs /\ parse_pset o_true o_true o_true o_id bs = RErr.
-Proof. exact empty_bip32_path_refuted. Qed.
-Print Assumptions C07_empty_bip32_path_refuted.
-Theorem C07_short_witness_utxo_refuted :
-  exists p bs, ser_pset p = ROk bs /\ parse_pset o_true o_true o_true o_id bs = RErr.
-Proof. exact short_witness_utxo_refuted. Qed.
-Print Assumptions C07_short_witness_utxo_refuted.
-
 (* second clause: parse, serialize, parse is the identity (up to the normal form) on EVERY accepted
    encoding whose externally decoded values (non-witness UTXO, witness UTXO, peg-in transaction) are
    stable under their own decoder; every accepted packet of that kind is well formed.  The premise
-   cannot be dropped: a 44-byte witness UTXO followed by one stray byte is accepted and its
-   re-serialization is rejected.  It holds for every non-witness UTXO with a 0/1 flag byte and every
-   witness UTXO of at least 45 canonical bytes; for the peg-in transaction it is a statement about btcd *)
+   cannot be dropped: a 36-byte witness UTXO (null value) followed by eight stray bytes is accepted and
+   its re-serialization is rejected.  It holds for every non-witness UTXO with a 0/1 flag byte and every
+   witness UTXO of at least 44 canonical bytes; for the peg-in transaction it is a statement about btcd *)
 Theorem C07_parsed_wf : forall pk der xo canon bs p,
   parse_pset pk der xo canon bs = ROk p -> pset_ext pk canon p -> wf_pset pk der xo canon p = true.
 Proof. exact parsed_wf. Qed.
@@ -81,7 +73,7 @@ Theorem C07_pset_parse_ser_parse : forall pk der xo canon bs p,
 Proof. exact pset_parse_ser_parse. Qed.
 Print Assumptions C07_pset_parse_ser_parse.
 Theorem C07_witness_utxo_trailing_refuted :
-  exists p bs', parse_pset o_true o_true o_true o_id ex_stream_utxo45 = ROk p /\ ser_pset p = ROk bs' /\
+  exists p bs', parse_pset o_true o_true o_true o_id ex_stream_utxo_trailing = ROk p /\ ser_pset p = ROk bs' /\
                 parse_pset o_true o_true o_true o_id bs' = RErr.
 Proof. exact witness_utxo_trailing_refuted. Qed.
 Print Assumptions C07_witness_utxo_trailing_refuted.
@@ -90,7 +82,7 @@ Theorem C07_nonwitness_utxo_stable : forall pk canon v t r,
 Proof. intros pk canon. exact (tx_stable_canonical pk pk pk canon). Qed.
 Print Assumptions C07_nonwitness_utxo_stable.
 Theorem C07_witness_utxo_stable : forall pk canon v b,
-  read_txout v = Some b -> (45 <= length b)%nat -> lenN v < two64 -> s_wf pk canon KTxOut false b = true.
+  read_txout v = Some b -> (44 <= length b)%nat -> lenN v < two64 -> s_wf pk canon KTxOut false b = true.
 Proof. intros pk canon. exact (txout_stable pk pk pk canon). Qed.
 Print Assumptions C07_witness_utxo_stable.
 
